@@ -171,29 +171,6 @@ def linkStep (ti : Nat) (h : Heap) (cx : Nat) : Except Exc (Heap × Nat) :=
         let ctxs := (h.ctxs.set cx { c with parent := some nsId }) ++ [lcl]
         .ok (⟨nss, ctxs⟩, lclId)
 
-/-- `_inherit_from` for the template at the head of `rest` (chain index `ti`), called with context `cx`;
-then that template's own `_mako_inherit`, recursively.  Returns the heap and the callable to run first
-(template index, context index). -/
-def inheritFrom : List Level → Nat → Heap → Nat → Except Exc (Heap × (Nat × Nat))
-  | [], _, _, _ => .error .lookup
-  | t :: rest, ti, h, cx =>
-    match linkStep ti h cx with
-    | .error e => .error e
-    | .ok (h', lclId) =>
-      if t.inherit.links then inheritFrom rest (ti + 1) h' lclId    -- `ret = callable_(template, lclcontext); if ret: return ret`
-      else .ok (h', (ti, lclId))                                      -- `return (template.callable_, lclcontext)`
-
-/-- heap after `_populate_self_namespace(context, T₀)` before `_mako_inherit` runs -/
-def heap0 : Heap :=
-  ⟨[{ tmpl := 0, ctx := 0 }], [{ self := some 0, loc := some 0 }]⟩
-
-/-- `_populate_self_namespace(context, tmpl)` as called by `_render_context` -/
-def populateSelf : List Level → Except Exc (Heap × (Nat × Nat))
-  | [] => .error .lookup
-  | t :: rest =>
-    if t.inherit.links then inheritFrom rest 1 heap0 0
-    else .ok (heap0, (0, 0))
-
 /-! ## attribute access -/
 
 /-- `TemplateNamespace.__getattr__` without the memo: callables are empty for inheritance namespaces, then
@@ -500,16 +477,47 @@ end
 def check (nodes : List Node) : List Fault :=
   scan .main (regionL true nodes) ++ deepL .main nodes
 
+/-! ## the inherit phase -/
+
+/-- `_inherit_from` for the template at the head of `rest` (chain index `ti`), called with context `cx`:
+the template is looked up (and compiled: templates are loaded when first needed), linked, and then its own
+`_mako_inherit` runs, recursively.  Returns the heap and the callable to run first
+(template index, context index). -/
+def inheritFrom : List Level → Nat → Heap → Nat → Except Exc (Heap × (Nat × Nat))
+  | [], _, _, _ => .error .lookup
+  | t :: rest, ti, h, cx =>
+    if !(check t.nodes).isEmpty then .error .compile      -- `_lookup_template` loads (compiles) the target first
+    else match linkStep ti h cx with
+    | .error e => .error e
+    | .ok (h', lclId) =>
+      if t.inherit.links then inheritFrom rest (ti + 1) h' lclId    -- `ret = callable_(template, lclcontext); if ret: return ret`
+      else .ok (h', (ti, lclId))                                      -- `return (template.callable_, lclcontext)`
+
+/-- heap after `_populate_self_namespace(context, T₀)` before `_mako_inherit` runs -/
+def heap0 : Heap :=
+  ⟨[{ tmpl := 0, ctx := 0 }], [{ self := some 0, loc := some 0 }]⟩
+
+/-- `_populate_self_namespace(context, tmpl)` as called by `_render_context` -/
+def populateSelf : List Level → Except Exc (Heap × (Nat × Nat))
+  | [] => .error .lookup
+  | t :: rest =>
+    if t.inherit.links then inheritFrom rest 1 heap0 0
+    else .ok (heap0, (0, 0))
+
 /-! ## a render -/
 
 def compiles (c : List Level) : Bool := c.all (fun l => (check l.nodes).isEmpty)
 
-/-- `Template.render(**data)` of the first template of `c` in a lookup that holds the whole chain -/
+/-- `lookup.get_template(T₀).render(**data)` in a lookup that holds the chain (templates are compiled when they
+are first looked up: `T₀` here, every other one by the `_inherit_from` that names it) -/
 def render (c : List Level) (fuel : Nat) (data : List (Name × Val)) : Res :=
-  if !compiles c then .error .compile
-  else match populateSelf c with
-    | .error e => .error e
-    | .ok (h, (t, cx)) =>
-      invoke c (exec c (heapDispatch c h) fuel) (.member t cx) bodyName [] data
+  match c with
+  | [] => .error .lookup
+  | t0 :: _ =>
+    if !(check t0.nodes).isEmpty then .error .compile
+    else match populateSelf c with
+      | .error e => .error e
+      | .ok (h, (t, cx)) =>
+        invoke c (exec c (heapDispatch c h) fuel) (.member t cx) bodyName [] data
 
 end MakoModel.Inherit
